@@ -835,7 +835,22 @@ def replay_md_driver_reuse(model):
         run(used, "water")
         again = run(used, "HCN")
         dev = max(float((fresh[0] - again[0]).abs().max()), float((fresh[1] - again[1]).abs().max()))
-        return {"reproduced": dev > 0.0, "max_abs_difference_fresh_vs_reused_driver": dev, "history": "water (3 steps), then HCN (3 steps), seed 11"}
+        # second scenario: a plain NVE driver first used with angular centre-of-mass removal, then without any
+        def basic():
+            return M.Molecular_Dynamics_Basic(seqm_parameters=dict(params), timestep=0.5, Temp=300.0, output={"molid": [0], "prefix": os.path.join(d, "nve"), "print every": 0, "checkpoint every": 0, "xyz": 0, "h5": {}})
+
+        def ndof(md, name, rc):
+            mol = Molecule(Constants(), dict(params), torch.tensor(geo[name][1]), torch.tensor(geo[name][0]))
+            with contextlib.redirect_stdout(io.StringIO()):
+                md.run(mol, 1, seed=5, remove_com=rc)
+            return [float(x) for x in torch.as_tensor(md.n_dof, dtype=torch.float64).reshape(-1)]
+
+        fresh_dof = ndof(basic(), "water", None)
+        usedb = basic()
+        ndof(usedb, "water", ("angular", 1))
+        used_dof = ndof(usedb, "water", None)
+        return {"reproduced": dev > 0.0 or fresh_dof != used_dof, "max_abs_difference_fresh_vs_reused_driver": dev, "history": "water (3 steps), then HCN (3 steps), seed 11",
+                "n_dof of an NVE run without COM removal: fresh driver": fresh_dof, "same run on a driver that first removed angular COM motion": used_dof}
     finally:
         shutil.rmtree(d, ignore_errors=True)
 
@@ -849,13 +864,13 @@ def task_md_driver_reuse(ctx):
     MDM = "seqm.MolecularDynamics"
     rep = []
     rp = lambda mdl: (rep or rep.append(_quiet(replay_md_driver_reuse)) or rep)[0]
-    for cls, extra in (("Molecular_Dynamics_Langevin", {}), ("XL_BOMD", {"xl_bomd_params": {"k": 3}})):
+    for cls, extra in (("Molecular_Dynamics_Basic", {}), ("Molecular_Dynamics_Langevin", {}), ("XL_BOMD", {"xl_bomd_params": {"k": 3}})):
         ctx.under_contract(MDM + ":%s.initialize" % cls, stubs=["esdriver", "initialize_velocity"])
 
         def make():
             kw = dict(seqm_parameters={"method": "AM1"}, timestep=0.5, Temp=300.0, output={"h5": {}, "print every": 0, "checkpoint every": 0})
             kw.update(extra)
-            md = getattr(M, cls)(damp=20.0, **kw)
+            md = getattr(M, cls)(**kw) if cls == "Molecular_Dynamics_Basic" else getattr(M, cls)(damp=20.0, **kw)
             md.esdriver.behaviour = C12._driver_behaviour
             return md
 
@@ -870,7 +885,8 @@ def task_md_driver_reuse(ctx):
 
         def thunk():
             used, fresh = make(), make()
-            used.initialize(molecule("A"))
+            # job A removes the angular momentum of the centre of mass (6 constraints), job B removes nothing
+            used.initialize(molecule("A"), remove_com=("angular", 5))
             mb1, mb2 = molecule("B"), molecule("B")
             used.initialize(mb1)
             fresh.initialize(mb2)
@@ -886,12 +902,16 @@ def task_md_driver_reuse(ctx):
                 continue
             n += 1
             used, fresh = p.value
-            for attr in ("langevin_c1", "langevin_c2", "n_dof"):
+            for attr in ("langevin_c1", "langevin_c2", "n_dof", "do_remove_com"):  # remove_com_angular may stay stale: it is read only when do_remove_com is set
                 a, b = getattr(used, attr, None), getattr(fresh, attr, None)
                 if a is None and b is None:
                     continue
                 if (a is None) != (b is None):
                     ctx.fail("md_driver_reuse.%s.%s@p%d" % (cls, attr, p.path_id), "set on one driver only", replay=rp(None))
+                    continue
+                if isinstance(a, bool) or isinstance(b, bool):
+                    (ctx.ok("md_driver_reuse.%s.%s-on-a-used-driver=on-a-fresh-driver@p%d" % (cls, attr, p.path_id), "two-run-structural-identity") if a == b else
+                     ctx.fail("md_driver_reuse.%s.%s-on-a-used-driver=on-a-fresh-driver@p%d" % (cls, attr, p.path_id), "%r on the used driver, %r on a fresh one" % (a, b), replay=rp(None)))
                     continue
                 av = a.a.reshape(-1) if isinstance(a, st.T) else np.array([S(a)], dtype=object)
                 bv = b.a.reshape(-1) if isinstance(b, st.T) else np.array([S(b)], dtype=object)
